@@ -80,6 +80,9 @@ func ledgerScenario(c *Ctx, p ledgerParams) {
 	if c.Rnd.Intn(20) == 0 {
 		w.Genesis(n0, n0.addr, p.supply) // must be rejected
 	}
+	if c.Rnd.Intn(20) == 0 {
+		w.Genesis(n0, w.wallets[0].Address(), spice.Melange{Currency: 1, SupplementaryCurrency: maxSupp}) // must be rejected
+	}
 	if _, err := w.Genesis(n0, w.wallets[0].Address(), p.supply); err != nil {
 		return
 	}
@@ -156,9 +159,19 @@ func ledgerScenario(c *Ctx, p ledgerParams) {
 					}
 				}
 			}
-		case r < 55: // empty transaction
+		case r < 54: // empty transaction
 			t := w.NewTrx(pick(c, w.wallets), pick(c, w.wallets).Address(), spice.Melange{}, nil)
 			w.Propose(n, &t)
+		case r < 55: // non-canonical amount: proposed locally and offered by gossip (sealed by a wallet we control)
+			amt := spice.Melange{Currency: uint64(c.Rnd.Intn(2)), SupplementaryCurrency: pick(c, []uint64{maxSupp, maxSupp + 1, 1<<64 - 1})}
+			t := w.NewTrx(pick(c, w.wallets), pick(c, w.wallets).Address(), amt, nil)
+			w.Propose(n, &t)
+			if s := n.lastSnap; s != nil && len(s.Leaves) > 0 {
+				sealer := pick(c, w.wallets)
+				if v, err := accountant.NewVertex(t, s.Leaves[0], s.Leaves[0], 60, sealer); err == nil {
+					w.Add(n, &v)
+				}
+			}
 		case r < 57: // issued by the sealing node's own wallet
 			t := w.NewTrx(n.w, pick(c, w.wallets).Address(), spice.Melange{Currency: 1}, nil)
 			w.Propose(n, &t)
